@@ -4,6 +4,7 @@ package main
 
 import (
 	"fmt"
+	"math/bits"
 	"os"
 	"sort"
 	"strings"
@@ -32,6 +33,7 @@ type inputRec struct {
 	Terms []*Term // the symbolic variables
 	Lo    int64
 	Hi    int64
+	Table []string // for "tok": the vocabulary
 }
 
 type obsRec struct {
@@ -46,41 +48,42 @@ type Exec struct {
 	id  int
 
 	// per path
-	pc          []*Term
-	prefix      []Decision
-	pos         int
-	trace       []Decision
-	newWork     []WorkItem
-	model       map[string]uint64 // satisfies pc, or nil
-	pcset       map[int]bool
-	fixed       map[int]uint64 // input variables determined by the path condition
-	fixedSet    varset
-	prefixModel map[string]uint64
-	steps       int
-	budget      int
-	depth       int
-	stack       []*frame
-	deferOwner  []*frame
-	globals     map[*ssa.Global]*Value
-	initDone    map[*ssa.Package]bool
-	inputs      []inputRec
-	nvar        int
-	covers      map[string]bool
-	obs         []obsRec
-	tainted     bool // an "unknown" feasibility answer was taken as feasible
-	permuteMaps bool
-	onceDone    map[Ptr]bool
-	violations  []*Violation
-	inHarness   bool
-	unknowns    int
-	concretized int
-	hrun        *HarnessRun
-	par         *parState
-	lastInstr   string
-	funcs       map[*ssa.Function]bool
-	tokSrc      *tokSrc
-	noSummary   bool
-	summaryHits int
+	pc            []*Term
+	prefix        []Decision
+	pos           int
+	trace         []Decision
+	newWork       []WorkItem
+	model         map[string]uint64 // satisfies pc, or nil
+	pcset         map[int]bool
+	fixed         map[int]uint64 // input variables determined by the path condition
+	fixedSet      varset
+	prefixModel   map[string]uint64
+	steps         int
+	budget        int
+	depth         int
+	stack         []*frame
+	deferOwner    []*frame
+	globals       map[*ssa.Global]*Value
+	initDone      map[*ssa.Package]bool
+	inputs        []inputRec
+	nvar          int
+	covers        map[string]bool
+	obs           []obsRec
+	tainted       bool // an "unknown" feasibility answer was taken as feasible
+	permuteMaps   bool
+	onceDone      map[Ptr]bool
+	violations    []*Violation
+	inHarness     bool
+	unknowns      int
+	concretized   int
+	hrun          *HarnessRun
+	par           *parState
+	lastInstr     string
+	funcs         map[*ssa.Function]bool
+	tokSrc        *tokSrc
+	noSummary     bool
+	summaryHits   int
+	assertQueries int
 }
 
 type Violation struct {
@@ -95,6 +98,7 @@ type Violation struct {
 type ReplayInput struct {
 	Kind string  `json:"kind"`
 	Val  []int64 `json:"val"`
+	Text string  `json:"text,omitempty"` // readable rendering (token lexeme)
 }
 
 type PathResult struct {
@@ -125,6 +129,29 @@ func (ex *Exec) feasible(c *Term) Verdict {
 	return v
 }
 
+// feasibleSMT decides pc ∧ c with the SMT solver (used for assertions: the verdict is the solver's).
+func (ex *Exec) feasibleSMT(c *Term) Verdict {
+	if c.isTrue() {
+		return Sat
+	}
+	if c.isFalse() {
+		return Unsat
+	}
+	if len(ex.fixed) > 0 && c.vars.intersects(ex.fixedSet) {
+		c = ex.ts.Subst(c, ex.fixed, ex.fixedSet, map[*Term]*Term{})
+		if c.isConst() {
+			if c.isTrue() {
+				return Sat
+			}
+			return Unsat
+		}
+	}
+	rel := ex.sliceFor(c)
+	rel = append(rel, c)
+	ex.assertQueries++
+	return ex.sol.Check(rel)
+}
+
 // feasibleModel also returns a model of the relevant slice when satisfiable.
 func (ex *Exec) feasibleModel(c *Term) (Verdict, map[string]uint64) {
 	if c.isTrue() {
@@ -146,7 +173,58 @@ func (ex *Exec) feasibleModel(c *Term) (Verdict, map[string]uint64) {
 	}
 	rel := ex.sliceFor(c)
 	rel = append(rel, c)
-	return ex.sol.CheckModel(rel)
+	return ex.check(rel)
+}
+
+// check decides a conjunction. Constraint sets over one single byte-sized
+// variable are decided by truth tables (a finite-domain decision procedure used
+// for branch feasibility only; assertions always go to the SMT solver).
+func (ex *Exec) check(cs []*Term) (Verdict, map[string]uint64) {
+	if !ex.eng.noFastPath {
+		if v, m, ok := ex.fastCheck(cs); ok {
+			return v, m
+		}
+	}
+	return ex.sol.CheckModel(cs)
+}
+
+func (ex *Exec) fastCheck(cs []*Term) (Verdict, map[string]uint64, bool) {
+	var vs varset
+	for _, c := range cs {
+		if c.nvars > 1 {
+			return 0, nil, false
+		}
+		vs = vs.union(c.vars)
+	}
+	l := vs.list()
+	if len(l) != 1 {
+		return 0, nil, false
+	}
+	x := ex.ts.vars[l[0]]
+	if x.bits > 8 || x.bits < 0 {
+		return 0, nil, false
+	}
+	dom := [4]uint64{^uint64(0), ^uint64(0), ^uint64(0), ^uint64(0)}
+	if x.bits == 0 {
+		dom = [4]uint64{3, 0, 0, 0}
+	}
+	for _, c := range cs {
+		b, ok := ex.ts.TruthBits(c)
+		if !ok {
+			return 0, nil, false
+		}
+		for i := range dom {
+			dom[i] &= b[i]
+		}
+	}
+	ex.ts.Fast.Decided++
+	for i, w := range dom {
+		if w != 0 {
+			v := uint64(i*64 + bits.TrailingZeros64(w))
+			return Sat, map[string]uint64{x.name: v}, true
+		}
+	}
+	return Unsat, nil, true
 }
 
 // evalModel evaluates a condition under the current model of pc.
@@ -424,7 +502,7 @@ func (ex *Exec) concretize(t *Term) uint64 {
 		cs := append(ex.sliceFor(t), exclC...)
 		aux := ts.Var(fmt.Sprintf("aux%d", t.bits), t.bits)
 		cs2 := append(append([]*Term{}, cs...), ts.Eq(aux, t))
-		v, m := ex.sol.CheckModel(cs2)
+		v, m := ex.check(cs2)
 		switch v {
 		case Unsat:
 			panic(pathEnd{kind: "infeasible", msg: "no further value"})
@@ -441,7 +519,7 @@ func (ex *Exec) concretize(t *Term) uint64 {
 	excl2 := append(append([]uint64{}, excl...), val)
 	other := append(ex.sliceFor(t), exclC...)
 	other = append(other, ts.Not(ts.Eq(t, ts.Const(val, t.bits))))
-	if v, m := ex.sol.CheckModel(other); v != Unsat {
+	if v, m := ex.check(other); v != Unsat {
 		if v == Unknown {
 			ex.unknowns++
 			ex.tainted = true
@@ -529,6 +607,9 @@ func (ex *Exec) inputsFromModel(m map[string]uint64) []ReplayInput {
 		}
 		if ri.Val == nil {
 			ri.Val = []int64{}
+		}
+		if in.Kind == "tok" && len(ri.Val) == 1 && int(ri.Val[0]) < len(in.Table) && ri.Val[0] >= 0 {
+			ri.Text = in.Table[ri.Val[0]]
 		}
 		out = append(out, ri)
 	}
@@ -692,7 +773,33 @@ func (ex *Exec) ensureInit(p *ssa.Package) bool {
 	return true
 }
 
+// describePanic renders the panic value (calling Error() of error values).
+func (ex *Exec) describePanic(gp *goPanic) {
+	if gp.rtErr != "" || gp.text != "" {
+		return
+	}
+	defer func() { recover() }()
+	iv, ok := gp.val.(Iface)
+	if !ok || iv.T == nil {
+		return
+	}
+	if s, ok := ex.forceStr(iv.V).(string); ok {
+		gp.text = s
+		return
+	}
+	if m := ex.methodNamed(iv.T, "Error"); m != nil {
+		saved := ex.budget
+		ex.budget = ex.steps + 100000
+		r := ex.forceStr(ex.callFunction(m, []Value{iv.V}, nil, nil))
+		ex.budget = saved
+		if s, ok := r.(string); ok {
+			gp.text = s
+		}
+	}
+}
+
 func (ex *Exec) reportPanic(gp *goPanic) {
+	ex.describePanic(gp)
 	ins, _, v := ex.witness()
 	viol := &Violation{Kind: "panic", Msg: gp.String(), Where: gp.where, Path: ex.trace, Tainted: ex.tainted}
 	if v == Sat {
@@ -868,6 +975,10 @@ func (e *Engine) newExec(id int) *Exec {
 	ts := NewTermStore()
 	ex := &Exec{eng: e, ts: ts, id: id, funcs: map[*ssa.Function]bool{}}
 	ex.sol = NewSolver(e.solverKind, ts, e.solverTimeoutMs, e.seed)
+	if id == 0 && os.Getenv("GOSYM_SMTLOG") != "" {
+		f, _ := os.Create(os.Getenv("GOSYM_SMTLOG"))
+		ex.sol.log = f
+	}
 	return ex
 }
 
@@ -880,6 +991,10 @@ func (ex *Exec) recycle() {
 }
 
 func (ex *Exec) flushStats() {
+	ex.eng.smu.Lock()
+	ex.eng.fastDecided += ex.ts.Fast.Decided
+	ex.eng.smu.Unlock()
+	ex.ts.Fast = FastStats{}
 	for f := range ex.funcs {
 		ex.eng.funcsExecuted.Store(f.String(), true)
 	}
